@@ -548,3 +548,21 @@ def is_positive_fact(facts, subject):
                 except ValueError:
                     pass
     return False
+
+
+def follow_local(e, fn_body):
+    """e, or the initialiser of the never-reassigned local it names (calls included: `int j = F(..); T[k] = j;`)"""
+    for _ in range(4):
+        x = strip(e, casts=True)
+        if x.get("kind") != "DeclRefExpr":
+            return e
+        did = x.get("referencedDecl", {}).get("id")
+        decl = [d for d in walk(fn_body) if d.get("kind") == "VarDecl" and d.get("id") == did and kids(d)]
+        if len(decl) != 1:
+            return e
+        for y in walk(fn_body):
+            for st in stores_of_node(y):
+                if st.base and st.base[0] == "var" and len(st.base) > 2 and st.base[2] == did:
+                    return e
+        e = kids(decl[0])[-1]
+    return e
